@@ -868,10 +868,10 @@ def finish(ctx):
             "Coq 8.16.1 kernel; vm_compute for running the model and the Spec in the correspondence check",
             "hand-written Gallina model coq/Prov/{Syntax,Model,Dnf,Wmc,Instances}.v of datalog/src/reasoning/materialisation/{provenance_semi_naive,provenance_infer_generic}.rs, shared/src/{provenance,tag_store}.rs",
             "the join is abstracted: the model's nested-loop matcher (Syntax.solutions) stands for join_premise_with_hash_join / perform_hash_join_for_rules; that the real join returns the same bindings is property C05's theorem",
-            "SddProvenance is not modelled operationally: C06_exact_sdd assumes the SDD manager represents Boolean functions exactly and counts them exactly (property C07's theorems); the check compares SDD-mode probabilities and the handles' model lists with world enumeration and with the truth-table instance of the model",
+            "SddProvenance is not modelled operationally: C06_exact_sdd assumes the SDD manager represents Boolean functions exactly and counts them exactly (property C07's theorems); the check compares SDD-mode probabilities with world enumeration and with the truth-table instance of the model (tt_prov, proved exact: C06_tt_is_exact_bf), and the Boolean function of every handle (its model list) with derivability in every world",
             "f64 arithmetic is modelled by exact rationals; implementation floats are compared with the exact value within 1e-9; MinMax is_saturated (|a-b| < 1e-9) is modelled by equality (generated probabilities are multiples of 1/8)",
             "correspondence check: harness/src/bin/c06.rs (public API only), checks/c06.py generators, canonicalisation and the bit-sliced world-enumeration oracle (cross-checked against KV.Prov.Spec on a sample of every stream)",
-            "HashMap/HashSet iteration order and the order in which the join returns bindings are not modelled: the final tags are a least fixpoint and do not depend on them; u32 ids are unbounded N; shannon_wmc's memo table is a cache and is not modelled",
+            "HashMap/HashSet iteration order and the order in which the join returns bindings are not modelled: the final tags are a least fixpoint and do not depend on them; u32 ids are unbounded N; shannon_wmc's memo table is a cache and is not modelled; seed variable ids are compared up to the renaming given by TagStore::seed_triples",
         ],
         assumptions=["safe rules without filters; rules with negation only in the class where the single negative pass suffices (their conclusions use a predicate that occurs nowhere else); no quoted-triple terms",
                      "every uncertain input fact is added once (add_tagged_triple on distinct triples); at most 12 uncertain inputs in the enumeration",
